@@ -86,14 +86,17 @@ def run(ctx):
              "observation of one collection, or the logical dump at the end of a sequence) compared between the real state machine, "
              "the extracted Map model and the extracted Spec model; non-trivial = a write/read whose reply is not nil/0/empty/error; "
              "distinct by hash of (sequence, command, reply). Inputs: corpus/C08+C09, random sequences over adversarial pools for "
-             "strings, hashes, sets, sorted sets and lists (both expiry policies, three apply modes), exhaustive short sequences "
-             "over a tiny alphabet per type",
+             "strings, hashes, sets, sorted sets and lists mixed with their EXPIRE/PERSIST/SETEX/TTL commands (both expiry policies, three apply modes), "
+             "exhaustive short sequences over a tiny alphabet per type (with and without expiry commands)",
         histogram=_data.histogram(runs),
         mismatches=len(all_mism),
         samples=samples[:6],
     ), assumptions=[
-        "raft timestamps of successive entries strictly increasing and positive",
-        "expiry commands (*EXPIRE, *PERSIST, SETEX), bitmap/HLL/JSON/geo commands, MSET/PLSET and the *MCLEAR internals are not generated (C10 / out of the documented KV-hash-list-set-zset core)",
+        "raft timestamps of successive entries strictly increasing and positive (needed under wait_compact only: generation = timestamp of the re-creation, open finding of C10)",
+        "expiry: writes decide with the raft timestamp, reads with the wall clock of the harness (recorded in the case, TTL replies re-based to it); generated timestamps are in 2023 and durations are a few seconds, ~63 years or invalid, so no expiry second is within hours of the read clock; "
+        "under local_deletion the background sweep is not started (property C10): expiry is invisible to commands there, as documented",
+        "declared TTL reply conventions of ZanRedisDB in the reference model: TTL of a missing key is -1, PERSIST of a key without expiry replies 1, expiry seconds >= 2^32-2 are refused",
+        "bitmap/HLL/JSON/geo commands, MSET/PLSET and the *MCLEAR internals are not generated (out of the documented KV-hash-list-set-zset core)",
         "keys well-formed table:key; scores integer-valued doubles or infinities, -0 printed as 0 (ZSCORE prints the sign the member key stores, ZRANGE does not); SETRANGE offsets >= 0",
         "commands enter at the state machine (after the node layer's arity / number-syntax validation); replies are the state machine's values (e.g. SET -> 1, HMSET -> nil), reads the handlers' RESP values",
     ])
